@@ -11,7 +11,7 @@ ID = "C14"
 META = {
     "technique": "runtime monitoring: Battery.charge return value and stored charge compared with an independently derived solution of the documented law, plus metamorphic relations (split period, monotonicity, zero pilot, reset) on the real objects",
     "design_ref": "DESIGN.md section 6 C14",
-    "level_text": "exploration: 5e4 (quick) / 5e6 (thorough) parameter sets over all regimes of the law (pilot-limited, power-limited, crossing, rampdown, pilot below envelope, full), each judged against a piecewise-analytic reference that is itself cross-checked against numerical integration (RK4; scipy LSODA in the thorough tier); infinite/astronomical pilots and numpy/integer-typed pilot scalars; reset to exactly the capacity",
+    "level_text": "exploration: 5e4 (quick) / 5e6 (thorough) parameter sets over all regimes of the law (pilot-limited, power-limited, crossing, rampdown, pilot below envelope, full), each judged against a piecewise-analytic reference that is itself cross-checked against numerical integration (RK4; scipy LSODA in the thorough tier); infinite/astronomical pilots and numpy/integer-typed pilot scalars; reset to exactly the capacity; a period at 0 A after a period of charging; miniature batteries with scale-free tolerances",
     "level_note": "the reference is derived from the documented law dE/dt = min(pV, Pmax, Pmax(1-soc)/(1-tsoc)), not from the repository's formulas; the legacy 'stepwise' calculation is judged on the relations that do not depend on the continuous law (zero pilot, reset, bounds) only; tolerance 1e-9 relative to capacity",
 }
 LEVEL = "exploration"
